@@ -308,6 +308,7 @@ func (p *sparser) postfix() (*SExpr, error) {
 // ---------- evaluation ----------
 
 type evalCtx struct {
+	noAlias bool
 	fr       *Frame
 	cur, old *State
 	vars     map[string]*Val
@@ -725,6 +726,25 @@ func (c *evalCtx) sel(x *SExpr) (*Val, error) {
 	key := typeKey(e.g, nt)
 	// ghost field?
 	if g, ok := e.g.specs.Ghosts[key+"."+x.Name]; ok {
+		// conformance check of an implementation: the interface's ghost field on the receiver is the
+		// implementation's own abstraction of it
+		if root := c.fr.root(); root.aliasSelf != nil && base.T == root.aliasSelf.T && !c.noAlias {
+			if ex, ok := root.ghostAlias[key+"."+x.Name]; ok {
+				px, err := parseSpec(ex)
+				if err != nil {
+					return nil, err
+				}
+				n := *c
+				n.noAlias = false
+				n.vars = map[string]*Val{}
+				for k, v := range c.vars {
+					n.vars[k] = v
+				}
+				n.vars["self"] = root.aliasRecv
+				return n.ev(px)
+			}
+			root.unaliased = key + "." + x.Name
+		}
 		s := specSort(g.Sort)
 		idx := base.T
 		if base.S == "Iface" {
@@ -1072,6 +1092,10 @@ func (c *evalCtx) call(x *SExpr) (*Val, error) {
 		return &Val{T: args[1].T, S: e.sortOf(t), GoT: t}, nil
 	case "owned":
 		// owned(x): the byte slice x is nil or its array belongs to the engine
+		// (array ownership is tracked only in functions declared "ownership"; elsewhere the predicate is not constrained)
+		if !e.ownerOn() {
+			return bo("true")
+		}
 		t := "(s-arr " + args[0].T + ")"
 		return bo(sOr("(= "+t+" 0)", "(= "+sSel(e.get(c.cur, "Owner", "(Array Int Int)"), t)+" 1)"))
 	case "owner":
@@ -1214,6 +1238,23 @@ func (fr *Frame) collectDebug() {
 	}
 }
 
+// dominatesReturns: b dominates every block of the function that ends in a return
+func (fr *Frame) dominatesReturns(b *ssa.BasicBlock) bool {
+	any := false
+	for _, x := range fr.fn.Blocks {
+		if len(x.Instrs) == 0 {
+			continue
+		}
+		if _, ok := x.Instrs[len(x.Instrs)-1].(*ssa.Return); ok {
+			any = true
+			if !b.Dominates(x) {
+				return false
+			}
+		}
+	}
+	return any
+}
+
 func domDepth(b *ssa.BasicBlock) int {
 	d := 0
 	for x := b.Idom(); x != nil; x = x.Idom() {
@@ -1235,6 +1276,9 @@ func (fr *Frame) lookupLocal(name string, hdr *ssa.BasicBlock, override map[ssa.
 			continue
 		}
 		if at != nil && !d.block.Dominates(at) {
+			continue
+		}
+		if at == nil && hdr == nil && fr.atExit && !fr.dominatesReturns(d.block) {
 			continue
 		}
 		// a non-phi definition inside the block `at` itself comes after the header's cut point
